@@ -485,4 +485,10 @@ def keep (nopositive nonegative : Bool) (s : Sgn) : Bool :=
 def filterCat {β : Type} (sg : β → Sgn) (nopositive nonegative : Bool) (cat : List β) : List β :=
   cat.filter (fun s => keep nopositive nonegative (sg s))
 
+/-- a long-lived finder: the same fitted sources, asked with a sequence of `(nopositive, nonegative)`
+    settings; the answers, in order.  (The model of the clean tree: each answer is the filter of
+    that call's own flags — nothing is remembered between calls.) -/
+def runHistory {β : Type} (sg : β → Sgn) (cat : List β) (calls : List (Bool × Bool)) : List (List β) :=
+  calls.map (fun c => filterCat sg c.1 c.2 cat)
+
 end Aegean.Model.C13
